@@ -55,7 +55,16 @@ func registerBig(e *Engine) {
 		if n == 0 {
 			return ex.bigSet(args[0], c.zero(bigW)), nil
 		}
-		return ex.bigSet(args[0], c.ZExt(ex.regionBV(r, n), bigW)), nil
+		bv := ex.regionBV(r, n)
+		// bytes written by FillBytes of a value known to fit read back as that very value
+		if bv.op == "extract" && bv.p2 == 0 && bv.p1 == 8*n-1 && bv.args[0].sort.W == bigW {
+			if fits, ok := ex.st["bigfits"].(map[*Term]int); ok {
+				if k, ok := fits[bv.args[0]]; ok && k <= n {
+					return ex.bigSet(args[0], bv.args[0]), nil
+				}
+			}
+		}
+		return ex.bigSet(args[0], c.ZExt(bv, bigW)), nil
 	})
 	e.reg(B+"FillBytes", func(ex *Exec, fn *ssa.Function, args []Value) (Value, *PanicV) {
 		c := ex.ctx
@@ -73,6 +82,14 @@ func registerBig(e *Engine) {
 		}
 		if n > 0 {
 			ex.writeBytes(dst, c64(c, 0), Region{ex.bvNode(c.Extract(x, 8*n-1, 0), n, true), c64(c, 0), dst.len}, dst.len)
+		}
+		fitMap, _ := ex.st["bigfits"].(map[*Term]int)
+		if fitMap == nil {
+			fitMap = map[*Term]int{}
+			ex.st["bigfits"] = fitMap
+		}
+		if old, ok := fitMap[x]; !ok || n < old {
+			fitMap[x] = n
 		}
 		return dst, nil
 	})
@@ -112,6 +129,30 @@ func registerBig(e *Engine) {
 	e.reg(B+"Exp", func(ex *Exec, fn *ssa.Function, args []Value) (Value, *PanicV) {
 		c := ex.ctx
 		x, y, m := ex.bigGet(args[1]), ex.bigGet(args[2]), ex.bigGet(args[3])
+		// Canonical Diffie-Hellman form (number theory, assumed): (g^a)^b = (g^b)^a mod m, and
+		// (m - X)^e = X^e mod m for even e. Both sides of a key agreement get the same term.
+		inner := x
+		viaNeg := false
+		if x.op == "bvadd" || x.op == "bvsub" {
+			// m - modexp(...)
+			if x.op == "bvsub" && x.args[0] == m {
+				inner = x.args[1]
+				viaNeg = true
+			}
+		}
+		if inner.op == "uf" && inner.name == "modexp" && inner.args[2] == m {
+			even := c.Extract(y, 0, 0)
+			if !viaNeg || (even.isConst && even.cv == 0) {
+				g, a := inner.args[0], inner.args[1]
+				lo, hi := a, y
+				if lo.id > hi.id {
+					lo, hi = hi, lo
+				}
+				r := c.UF("dhexp", BV(bigW), g, lo, hi, m)
+				ex.addAxiom(c.Or(c.Eq(m, c.zero(bigW)), c.Ult(r, m)))
+				return ex.bigSet(args[0], r), nil
+			}
+		}
 		r := c.UF("modexp", BV(bigW), x, y, m)
 		ex.addAxiom(c.Or(c.Eq(m, c.zero(bigW)), c.Ult(r, m)))
 		apps, _ := ex.st["modexp"].([][3]*Term)
